@@ -18,6 +18,21 @@ type multi interface {
 	num() int
 	part(i int) string
 	coords() string
+	geomT() geom.T
+}
+
+// setSRID: every value of a history carries an SRID of its own, which must travel with it.
+func setSRID(g geom.T, srid int) {
+	switch g := g.(type) {
+	case *geom.Polygon:
+		g.SetSRID(srid)
+	case *geom.MultiLineString:
+		g.SetSRID(srid)
+	case *geom.MultiPoint:
+		g.SetSRID(srid)
+	case *geom.MultiPolygon:
+		g.SetSRID(srid)
+	}
 }
 
 func flatOf(cs []geom.Coord) []float64 {
@@ -68,6 +83,7 @@ func (m *mPoly) push(r *Rng, l geom.Layout) (string, string) {
 func (m *mPoly) rev()          { m.g.Reverse() }
 func (m *mPoly) clone() multi  { return &mPoly{m.g.Clone()} }
 func (m *mPoly) swap(o multi)  { m.g.Swap(o.(*mPoly).g) }
+func (m *mPoly) geomT() geom.T { return m.g }
 func (m *mPoly) num() int      { return m.g.NumLinearRings() }
 func (m *mPoly) part(i int) string { return sxG1p(m.g.LinearRing(i)) }
 func (m *mPoly) coords() string { return sxCoords2(m.g.Coords()) }
@@ -81,6 +97,7 @@ func (m *mMLS) push(r *Rng, l geom.Layout) (string, string) {
 func (m *mMLS) rev()          { m.g.Reverse() }
 func (m *mMLS) clone() multi  { return &mMLS{m.g.Clone()} }
 func (m *mMLS) swap(o multi)  { m.g.Swap(o.(*mMLS).g) }
+func (m *mMLS) geomT() geom.T { return m.g }
 func (m *mMLS) num() int      { return m.g.NumLineStrings() }
 func (m *mMLS) part(i int) string { return sxG1p(m.g.LineString(i)) }
 func (m *mMLS) coords() string { return sxCoords2(m.g.Coords()) }
@@ -97,6 +114,7 @@ func (m *mMP) push(r *Rng, l geom.Layout) (string, string) {
 func (m *mMP) rev()          { m.g.Reverse() }
 func (m *mMP) clone() multi  { return &mMP{m.g.Clone()} }
 func (m *mMP) swap(o multi)  { m.g.Swap(o.(*mMP).g) }
+func (m *mMP) geomT() geom.T { return m.g }
 func (m *mMP) num() int      { return m.g.NumPoints() }
 func (m *mMP) part(i int) string { return sxG1p(m.g.Point(i)) }
 func (m *mMP) coords() string { return sxMCoords(m.g.Coords()) }
@@ -121,6 +139,7 @@ func (m *mMPoly) push(r *Rng, l geom.Layout) (string, string) {
 func (m *mMPoly) rev()         { m.g.Reverse() }
 func (m *mMPoly) clone() multi { return &mMPoly{m.g.Clone()} }
 func (m *mMPoly) swap(o multi) { m.g.Swap(o.(*mMPoly).g) }
+func (m *mMPoly) geomT() geom.T { return m.g }
 func (m *mMPoly) num() int     { return m.g.NumPolygons() }
 func (m *mMPoly) part(i int) string {
 	p := m.g.Polygon(i)
@@ -236,6 +255,9 @@ func genC02(r *Rng, e *Emitter, n int) {
 		}
 		length := 1 + r.Intn(maxLen)
 		g, g2 := newMulti(kind, l), newMulti(kind, l)
+		sa, sb := 1111, 2222
+		setSRID(g.geomT(), sa)
+		setSRID(g2.geomT(), sb)
 		var ops, obs []string
 		e.tally("type=" + kind)
 		e.tally(fmt.Sprintf("layout=%d", int(l)))
@@ -274,16 +296,22 @@ func genC02(r *Rng, e *Emitter, n int) {
 					// (through swap) and observed independently
 					ops = append(ops, "fork")
 					g2 = g.clone()
+					sb = sa
 					obs = append(obs, "u")
 					e.tally("op=fork")
 					break
 				}
 				ops = append(ops, "swap")
 				g.swap(g2)
+				sa, sb = sb, sa
 				obs = append(obs, "u")
 				e.tally("op=swap")
 			case c < 14:
 				ops = append(ops, "num")
+				if g.geomT().SRID() != sa || g2.geomT().SRID() != sb {
+					obs = append(obs, "srid-did-not-travel-with-its-value")
+					break
+				}
 				obs = append(obs, fmt.Sprint(g.num()))
 				e.tally("op=num")
 			case c < 16:
